@@ -3,7 +3,8 @@ Generators for operator programs: chain lists, layered operator graphs, operator
 Descriptors are plain JSON; builders construct the pytenet objects.
 
 Symbol table (operator ids -> charge shift). The identity id is 0.
-    0: identity (0),  1: a (+1),  -1: b (-1),  2: c (0),  3: d (0),  4: e (+1),  5: f (-1)
+    0: identity (0),  1: a (+1),  -1: b (-1),  2: c (0),  3: d (0),  4: e (+1),  5: f (-1),  -2: g (0)
+(ids -1 and -2 are both present on purpose: hash(-1) == hash(-2) in CPython)
 """
 import numpy as np
 from hypothesis import strategies as st
@@ -11,8 +12,8 @@ from hypothesis import strategies as st
 import pytenet as ptn
 
 OID_ID = 0
-SYMBOLS = {0: 0, 1: +1, -1: -1, 2: 0, 3: 0, 4: +1, 5: -1}
-SYM_BY_CHARGE = {0: [2, 0, 3], 1: [1, 4], -1: [-1, 5]}
+SYMBOLS = {0: 0, 1: +1, -1: -1, 2: 0, 3: 0, 4: +1, 5: -1, -2: 0}
+SYM_BY_CHARGE = {0: [2, 0, 3, -2], 1: [1, 4], -1: [-1, 5]}
 
 # coefficients k/8: every float addition the implementation performs on them is exact
 DYADIC = [k / 8 for k in (8, -8, 4, -4, 16, 12, -20, 1, 3, -5, 24, 2)]
@@ -37,7 +38,7 @@ def coeff_strategy(style):
 def chain(draw, L, charged, nsym, cstyle, arbitrary_q=False):
     n = draw(st.sampled_from(list(range(1, L + 1))))
     istart = draw(st.sampled_from(list(range(0, L - n + 1))))
-    syms = {2: [2, 0, 3], 3: [2, 0, 1, -1], 4: [2, 0, 3, 1, -1], 5: [2, 0, 3, 1, -1, 4, 5]}[nsym]
+    syms = {2: [2, 0, -2], 3: [2, 0, 1, -1], 4: [2, -2, 0, 1, -1], 5: [2, 0, 3, 1, -1, 4, 5, -2]}[nsym]
     oids = []
     qnums = [0]
     q = 0
@@ -54,7 +55,7 @@ def chain(draw, L, charged, nsym, cstyle, arbitrary_q=False):
     if arbitrary_q and n >= 2:
         # interior quantum numbers unrelated to the symbols (graph level only)
         for i in range(1, n):
-            qnums[i] = draw(st.integers(-1, 1))
+            qnums[i] = draw(st.integers(-2, 2))
     return {'oids': oids, 'qnums': qnums, 'coeff': draw(coeff_strategy(cstyle)), 'istart': istart}
 
 
@@ -196,7 +197,7 @@ def layered_graph(draw, Lmax=6, wmax=4, cstyle=None, id_scheme=None, charged=Non
     for l in range(Lg):
         for (a, b) in pairs[l]:
             dq = layers[l + 1][b] - layers[l][a]
-            syms = SYM_BY_CHARGE[dq] if charged else [2, 0, 3, 1, -1]
+            syms = SYM_BY_CHARGE[dq] if charged else [2, 0, 3, 1, -1, -2]
             nops = draw(st.sampled_from([1, 1, 1, 2]))
             opics = []
             for _ in range(nops):
@@ -229,7 +230,7 @@ def layered_graph(draw, Lmax=6, wmax=4, cstyle=None, id_scheme=None, charged=Non
         else:
             tq = next(n[1] for n in nodes if n[0] == eo[2])
             dq = tq - v[1]
-            syms = SYM_BY_CHARGE[dq] if charged else [2, 0, 3, 1, -1]
+            syms = SYM_BY_CHARGE[dq] if charged else [2, 0, 3, 1, -1, -2]
             ops = [[syms[draw(st.integers(0, len(syms) - 1))], draw(coeff_strategy(cstyle))]]
         edges.append([fresh_eid(), vid, eo[2], ops])
     # optionally add a cancelling parallel edge
